@@ -381,4 +381,64 @@ theorem td_near (r : Rat) : |(tdOfSeconds r : Rat) - r * 1000000| ≤ 1/2 + 1/17
         abs_add_le _ _
     _ ≤ 1/2 + 1/17179869184 := add_le_add e2 e1
 
+/-! ### symmetry under negation (round-half-even and truncation are odd functions) -/
+
+theorem rne_neg (q : Rat) : rne (-q) = - rne q := by
+  have h1 : (⌊q⌋ : Rat) ≤ q := Int.floor_le q
+  have h2 : q < ⌊q⌋ + 1 := Int.lt_floor_add_one q
+  rcases eq_or_lt_of_le h1 with he | hl
+  · -- q is an integer
+    have : q = ((⌊q⌋ : Int) : Rat) := he.symm
+    rw [this, ← Int.cast_neg, rne_int, rne_int]
+  · have hg : ⌊-q⌋ = -⌊q⌋ - 1 := by
+      rw [Int.floor_eq_iff]; push_cast; constructor <;> linarith
+    unfold rne
+    simp only [floor_eq, hg]
+    push_cast
+    split_ifs <;> first | omega | (exfalso; linarith)
+
+theorem fl_neg (x : Rat) : fl (-x) = - fl x := by
+  unfold fl
+  rcases lt_trichotomy x 0 with h | h | h
+  · have a1 : ¬ (-x < 0) := by linarith
+    have a2 : -x ≠ 0 := by linarith
+    have a3 : x ≠ 0 := ne_of_lt h
+    simp only [a1, a2, a3, h, if_true, if_false, neg_neg]
+  · subst h; simp
+  · have a1 : -x < 0 := by linarith
+    have a2 : -x ≠ 0 := by linarith
+    have a3 : x ≠ 0 := ne_of_gt h
+    have a4 : ¬ (x < 0) := by linarith
+    simp only [a1, a2, a3, a4, if_true, if_false, neg_neg]
+
+theorem trunc_neg (r : Rat) : trunc (-r) = - trunc r := by
+  unfold trunc
+  rcases lt_trichotomy r 0 with h | h | h
+  · have a1 : ¬ (-r < 0) := by linarith
+    simp only [a1, h, if_true, if_false, neg_neg]
+  · subst h; simp [floor_eq]
+  · have a1 : -r < 0 := by linarith
+    have a4 : ¬ (r < 0) := by linarith
+    simp only [a1, a4, if_true, if_false, neg_neg]
+
+theorem tdOfSeconds_neg (r : Rat) : tdOfSeconds (-r) = - tdOfSeconds r := by
+  unfold tdOfSeconds modf fmul
+  simp only [trunc_neg]
+  have : (-r - ((-trunc r : Int) : Rat)) * 1000000 = -((r - (trunc r : Rat)) * 1000000) := by
+    push_cast; ring
+  rw [this, fl_neg, rne_neg]; ring
+
+theorem totalSeconds_neg (D : Int) : totalSeconds (-D) = - totalSeconds D := by
+  unfold totalSeconds fdiv
+  rw [← fl_neg]; congr 1; push_cast; ring
+
+/-- `timedelta(seconds=td.total_seconds()) == td` for every `|td| < 2^32 s` -/
+theorem td_total_roundtrip_abs (D : Int) (h0 : -4294967296000000 < D) (h1 : D < 4294967296000000) :
+    tdOfSeconds (totalSeconds D) = D := by
+  rcases le_or_gt 0 D with h | h
+  · exact td_total_roundtrip D h h1
+  · have := td_total_roundtrip (-D) (by omega) (by omega)
+    rw [totalSeconds_neg, tdOfSeconds_neg] at this
+    omega
+
 end Aw.Fl
